@@ -18,7 +18,7 @@ ASSUMPTIONS = ['duplicates that mix boolean / implied / expression flags with pl
                'the element is a custom element without snippet (snippet attributes are C14)']
 BOOL = ['contenteditable', 'seamless', 'async', 'autofocus', 'autoplay', 'checked', 'controls', 'defer', 'disabled', 'formnovalidate', 'hidden',
         'ismap', 'loop', 'multiple', 'muted', 'novalidate', 'readonly', 'required', 'reversed', 'selected', 'typemustmatch']
-FLOORS = {'quick': {'enum': 25000, 'random': 30000}, 'thorough': {'enum': 450000, 'random': 280000}}
+FLOORS = {'quick': {'enum': 25000, 'random': 30000}, 'thorough': {'enum': 450000, 'random': 220000}}
 REQUIRED_MONITORS = ['oracle:attribute-list']
 BOUNDS = {'quick': {'maxlen': 4, 'random': 7000}, 'thorough': {'maxlen': 5, 'random': 28000}}
 SYNTAXES = ['html', 'xml', 'jsx', 'vue']
